@@ -162,6 +162,17 @@ def run_shard(rec, tier, seed, shard, nshards):
                 want = [c * 1000 + s_ + 0.5 for c in range(n_chains) for s_ in range(sizes[c])]
                 rec.check(len(tags) == len(want) and np.allclose(tags, want, rtol=0, atol=1e-6), "C10/concat/not-chain-major", lambda: "concatenated order %r..., expected chain-major %r..." % (tags[:12], want[:12]), w)
                 rec.check(int(cat.n_thetas) == sum(sizes) and bool(cat.is_complete), "C10/concat/size", "concatenated holder declares %r for %d samples" % (cat.n_thetas, sum(sizes)), w)
+                # the input collections are left as they were (no growth beyond their declared size through aliasing)
+                grown = [(c, len(h_.thetas), sizes[c]) for c, h_ in enumerate(src) if len(h_.thetas) != sizes[c] or int(h_.n_thetas) != sizes[c]]
+                rec.check(not grown, "C10/concat/input-collection-changed", lambda: "after concat an input collection holds another number of samples than before: %r (chain, now, declared)" % (grown,), w)
+                if grown:
+                    for c, h_ in enumerate(src):
+                        del h_.thetas[sizes[c]:]
+                if n_chains >= 2:
+                    cat2 = ThetaHolder.concat(list(src))
+                    rec.check(len(cat2.thetas) == len(cat.thetas) and all(a is b for a, b in zip(cat2.thetas, cat.thetas)), "C10/concat/not-repeatable", lambda: "a second concat of the same collections gives %d samples, the first gave %d" % (len(cat2.thetas), len(cat.thetas)), w)
+                    for c, h_ in enumerate(src):
+                        del h_.thetas[sizes[c]:]
             # ---------------- evaluate_model CLI: column / chain-id alignment
             if ci % 4 == 0 and not (kind == "interaction" and lookup == {}):
                 order = [int(x) for x in rng.permutation(n_chains)]
